@@ -40,6 +40,12 @@ func (p *printer) write(b []byte) {
 		return
 	}
 
+	if p.state == PrinterStateHTML && p.last == nil && bytes.HasPrefix(b, []byte("#!")) {
+		// a leading shebang line is not PHP code: emit it as it is, before any open tag
+		p.output.Write(b)
+		return
+	}
+
 	if p.state == PrinterStateHTML {
 		if !bytes.HasPrefix(b, []byte("<?")) {
 			p.output.Write([]byte("<?php "))
